@@ -79,6 +79,40 @@ def parts_equal(a, b):
     return z3.And(cs) if cs else z3.BoolVal(True)
 
 
+def native_blocked_writer(ck, op):
+    """a client that stops reading in the middle of a large response for longer than the server's timeout and then resumes: whatever
+    the server decides (wait, or drop the connection), what the client finally reads must be whole frames - a response may be missing
+    only if the connection was closed"""
+    key = b'big'
+    val = bytes(range(256)) * 32768      # 8 MiB
+    setf = frame(0x01, key, b'\0' * 8, val, opaque=1)
+    getf = frame(op, key, opaque=2)
+    noop = frame(0x0a, opaque=3)
+    sc = {'kind': 'socket', 'item_limit': 1 << 24, 'timeout_secs': 1,
+          'conns': [{'chunks': [setf.hex(), getf.hex()], 'pause_ms': 100, 'read_ms': 0, 'end': 'hold', 'rcvbuf': 16384, 'then_after_ms': 1500, 'then_chunks': [noop.hex()], 'then_read_ms': 800}]}
+    out = ck.replay([sc], timeout=90)[0]
+    c = out['conns'][0]
+    got = bytes.fromhex(c.get('received', '')) + bytes.fromhex(c.get('later_received', ''))
+    pos, frames_, bad = 0, [], None
+    while pos < len(got):
+        if len(got) - pos < 24:
+            bad = f'{len(got) - pos} stray bytes at the end'
+            break
+        r = parse_response(got[pos:pos + 24])
+        if r['magic'] != 0x81:
+            bad = f'no response header at byte {pos} (magic 0x{r["magic"]:02x}): the stream is out of frame'
+            break
+        if pos + 24 + r['body'] > len(got):
+            if c.get('closed_by_server') or c.get('later_closed'):
+                break       # the server gave up on the connection in the middle of a response: allowed, nothing follows
+            bad = f"frame at byte {pos} announces {r['body']} body bytes, {len(got) - pos - 24} follow on a connection that stays open"
+            break
+        frames_.append((r['opcode'], r['opaque']))
+        pos += 24 + r['body']
+    desc = f"8 MiB value, get 0x{op:02x}, client stops reading for 1.6 s (server write/idle timeout 1 s), then sends a noop and reads: frames {frames_}" + (f' - {bad}' if bad else '')
+    return (True if bad else None), desc, sc
+
+
 def connection_level(ck, tier):
     """what reaches the socket is what the encoder produces: the real Client::handle on [get-family request on a stored item of
     any length up to 2 MiB][noop]; every response handed to MemcacheBinaryConnection::write is encoded separately with
@@ -106,8 +140,10 @@ def connection_level(ck, tier):
                 E.known_bytes[j] = b
             s = SC.Stream(0)
             s.total = BV(len(req))
-            x = SC.run_client(E, st, s, end='eof', max_reads=3)
+            x = SC.run_client(E, st, s, end='eof', max_reads=3, wslow=True)
             x.nreads = sum(1 for e in E.events if e[0] == 'read' and not isinstance(e[1], str))
+            x.write_blocked = any(e[0] in ('write', 'try_write', 'writable') and len(e) > 1 and e[1] in ('blocked', 'wouldblock') for e in E.events)
+            x.timed_out = any(e[0] == 'timeout' for e in E.events)
             # the encoder's own output for every response that was handed to the connection
             enc = E.fn('MemcacheBinaryCodec', 'encode_message')
             codec = E.alloc(new_codec(SC.limit))
@@ -126,11 +162,23 @@ def connection_level(ck, tier):
                 continue
             x = p.out
             try:
-                eq = parts_equal(flat_parts(x.out), flat_parts(x.expected))
+                got_p, exp_p = flat_parts(x.out), flat_parts(x.expected)
+                if x.state == 'pending' and x.write_blocked and not x.timed_out:
+                    # the peer stopped reading and the task is suspended in a write: what has been written so far is a prefix
+                    # (whole responses) of what the encoder produces; the rest follows when the peer reads again
+                    exp_p = exp_p[:len(got_p)]
+                eq = parts_equal(got_p, exp_p)
             except Unsupported:
                 eq = False
 
             def on_w(m, where, x=x, op=op):
+                cut = any(q[0] == 'cut' for d in x.out for q in HC.parts_of(d))
+                if cut:
+                    # a partial write: needs a response larger than the send buffer and a client that reads late
+                    from .C12 import native_short_write
+                    return native_short_write(ck, ['a response was handed to the socket with a single write whose count is ignored'])
+                if x.write_blocked:
+                    return native_blocked_writer(ck, op)
                 try:
                     C = SR.Concretizer(m)
                     val = C.val(st.val[0])
